@@ -1,13 +1,92 @@
 (** Property C01 — rendered HTML is the document the template denotes.
-    OBLIGATIONS: C01_nonvacuous *)
-From GV Require Import Compiler.Compile.
+    Proved for the static fragment, for trees of any size and depth: elements with static ids, classes and
+    attributes (void and self-closing ones included), text, one-line comments and the doctype.  [html_node] is the
+    document such a tree denotes; the theorems say that the Go string literal the emitter writes for it reads, by
+    Go's own rules ([reads_as], the model of strconv.Unquote / the scanner), as exactly that document, and that a
+    template with such a body is one WriteString of that literal followed by the error check and the epilogue.
+    (The whitespace-removal pass that follows is the identity on text without markers: C14.)
+    Dynamic content (interpolation, scripts, control flow, attributes from expressions, @render / @children) is not
+    covered by a theorem: there the rendered bytes are compared with the generator's denotation on generated
+    templates and environments by the C01 check.  Attribute names are covered for plain characters (F06).
+    OBLIGATIONS: C01_static_tree_reads_as_its_html C01_static_body_reads_as_its_html C01_static_template_code
+                 C01_static_template_literal_value C01_nonvacuous *)
+From GV Require Import Compiler.Compile Proofs.Utf8Proofs Proofs.QuoteProofs Proofs.EmitProofs Proofs.StaticProofs.
+From Coq Require Import Lia.
+Open Scope N_scope.
+
+(** inside an open string literal (local writer state [l0]: literal open, escaping on), a static tree appends a
+    chunk that reads as its HTML, leaves the literal open and the writer state unchanged *)
+Theorem C01_static_tree_reads_as_its_html : forall l0, wl_static l0 = true -> wl_unesc l0 = false ->
+  forall n, static_node n -> forall sm next nc st, LS l0 st ->
+  LS l0 (fst (emit_node sm n next nc st)) /\
+  (exists p, txt (fst (emit_node sm n next nc st)) = txt st ++ p /\ reads_as p (html_node n)) /\
+  snd (emit_node sm n next nc st) = false.
+Proof. intros l0 H1 H2 n. exact (static_node_renders l0 H1 H2 n). Qed.
+Print Assumptions C01_static_tree_reads_as_its_html.
+
+Theorem C01_static_body_reads_as_its_html : forall l0, wl_static l0 = true -> wl_unesc l0 = false ->
+  forall sm l, Forall static_node l -> forall nc st, LS l0 st ->
+  LS l0 (emit_list sm l nc st) /\ exists p, txt (emit_list sm l nc st) = txt st ++ p /\ reads_as p (html_list l).
+Proof.
+  intros l0 H1 H2 sm l Hl nc st H. apply (list_static l0 sm l); [|exact Hl|exact H].
+  apply Forall_forall. intros n _. apply static_node_renders; assumption.
+Qed.
+Print Assumptions C01_static_body_reads_as_its_html.
+
+(** a template with a static body: the generated function is the prologue, ONE WriteString of a literal, the error
+    check and the epilogue; nothing else *)
+Theorem C01_static_template_code : forall o c rest,
+  Forall static_node (c :: rest) ->
+  exists p, reads_as p (html_list (c :: rest)) /\
+    item_err (Node (KGoht o) (c :: rest)) = None /\
+    item_text (Node (KGoht o) (c :: rest)) =
+      lit "func " ++ t_lit o ++ c_gohtEntry ++
+      [9; 9] ++ write_string_open ++ lit """" ++ p ++ lit """)" ++ lit "; __err != nil { return }" ++ [10] ++
+      c_gohtExit.
+Proof. exact static_template_code. Qed.
+Print Assumptions C01_static_template_code.
+
+(** and the value of that literal, as Go reads it, is the document *)
+Theorem C01_static_template_literal_value : forall p h, reads_as p h -> go_unquote ([34] ++ p ++ [34]) = Some h.
+Proof. exact reads_as_literal. Qed.
+Print Assumptions C01_static_template_literal_value.
+
+(** the hypotheses are met by what the parser produces for a real template, and the denoted HTML is the expected one *)
+Definition ex_src : bytes :=
+  lit "@goht T() {" ++ [10; 9] ++ lit "!!!" ++ [10; 9] ++ lit "%p#i.c.d{a: ""v<"", b}" ++ [10; 9; 9] ++ lit "t & <b>" ++ [10; 9; 9] ++
+  lit "%br" ++ [10; 9; 9] ++ lit "/ note" ++ [10; 9; 9] ++ lit "%em x" ++ [10] ++ lit "}" ++ [10].
+Definition ex_items : list node :=
+  Eval vm_compute in match compile_parse ex_src with ODone (Node _ items) None => items | _ => [] end.
 
 Example C01_nonvacuous :
-  let src := lit "@goht T(c bool) {" ++ [10; 9] ++ lit "- if c" ++ [10; 9; 9] ++ lit "%p yes" ++ [10; 9] ++
-             lit "- else" ++ [10; 9; 9] ++ lit "%p no" ++ [10] ++ lit "}" ++ [10] in
-  match cli_generate src with
-  | Some out => contains (lit "if c {") out && contains (lit "} else {") out
-  | None => false
-  end = true.
-Proof. vm_compute. reflexivity. Qed.
+  match ex_items with
+  | Node (KGoht o) (c :: rest) :: _ =>
+      Forall static_node (c :: rest) /\
+      html_list (c :: rest) =
+        lit "<!DOCTYPE html>" ++ [10] ++ lit "<p id=""i"" class=""c d"" a=""v&lt;"" b>" ++ [10] ++ lit "t & <b>" ++ [10] ++ lit "<br>" ++
+        lit "<!--note-->" ++ [10] ++ lit "<em>x</em>" ++ [10] ++ lit "</p>" ++ [10]
+  | _ => False
+  end.
+Proof.
+  cbv [ex_items]. split.
+  - cbn.
+    Ltac st1 :=
+      match goal with
+      | |- _ /\ _ => split
+      | |- Forall _ [] => constructor
+      | |- Forall _ (_ :: _) => constructor
+      | |- _ = [] \/ _ => first [left; reflexivity | right]
+      | |- True => exact I
+      | |- static_node _ => cbn [static_node]
+      | |- static_elem _ => unfold static_elem; cbn
+      | |- static_text _ => unfold static_text; cbn
+      | |- static_attr _ => unfold static_attr; cbn
+      | |- static_class _ => unfold static_class; cbn
+      | |- plain _ => unfold plain
+      | |- bytes_ok _ => unfold bytes_ok; cbn
+      | |- Forall _ (t_lit _) => cbn
+      end.
+    repeat st1. all: try lia; try discriminate; try reflexivity.
+  - vm_compute. reflexivity.
+Qed.
 Print Assumptions C01_nonvacuous.
